@@ -37,6 +37,9 @@ CHECKS = {
                 "that premise is re-checked on every run against the trait table reflected from every statement class of the move dialect "
                 "group. The source-level semantics of move programs (Model.MoveLang: device calls with kirin's argument ordering, merged "
                 "parallel blocks, gates, for/if, subroutines and closures with early return) is fuel-independent and deterministic. "
+                "PROVED: with exactly the callees admitted by AggressiveUnroll.inline_heuristic (no return nested in the callee's control flow) inlined "
+                "the way kirin's Inline pastes bodies, every program executes what its source executes; inlining every callee (the pinned heuristic) "
+                "is refuted by a witness; the live heuristic is compared with the model's on every generated subroutine. "
                 "NOT PROVED (exercised): kirin's Default/Fold/Inline/UnrollScf passes and interpreter - every generated program x argument tuple "
                 "x route (quick: strength-2 covering array of 10 routes, thorough: all 2^5 decorator combinations + AggressiveUnroll + pipeline "
                 "re-run) is executed and its event log compared with the natively evaluated source, whose labels are compared with "
